@@ -2,6 +2,9 @@ module verif/harness
 
 go 1.18
 
-require github.com/go-python/gpython v0.0.0
+require (
+	github.com/anishathalye/porcupine v1.3.0
+	github.com/go-python/gpython v0.0.0
+)
 
 replace github.com/go-python/gpython => /repo
